@@ -141,6 +141,38 @@ func genC06(w *bufio.Writer, tier string, rng *rand.Rand) {
 			}
 		}
 	}
+	// every population size once (no band of sizes is left to chance), central and off-centre draws
+	for N := 15; N <= pick(tier, 300, 1000); N++ {
+		for _, D := range []int{N / 2, N/2 - 3 - rng.Intn(4), N / 3, N - 2} {
+			if D < 0 || D > N {
+				continue
+			}
+			for _, K := range []int{1, N / 2, N - 1, rng.Intn(N + 1)} {
+				if !isThorough(tier) && rng.Intn(2) == 0 {
+					continue
+				}
+				lo := D + K - N
+				if lo < 0 {
+					lo = 0
+				}
+				mean := math.Round(float64(D) * float64(K) / float64(N))
+				fmt.Fprintf(w, "hyp %d %d %d pmf %s\n", N, K, D, fmtF(float64(lo)))
+				fmt.Fprintf(w, "hyp %d %d %d pmf %s\n", N, K, D, fmtF(mean))
+				fmt.Fprintf(w, "hyp %d %d %d cdf %s\n", N, K, D, fmtF(mean))
+			}
+		}
+	}
+	// and every binomial size with a central and a tail point
+	for n := 61; n <= 1000; n++ {
+		if !isThorough(tier) && n > 200 && rng.Intn(4) != 0 {
+			continue
+		}
+		p := float64(1+rng.Intn(15)) / 16
+		k := math.Round(float64(n) * p)
+		fmt.Fprintf(w, "bin %d %s pmf %s\n", n, fmtF(p), fmtF(k))
+		fmt.Fprintf(w, "bin %d %s cdf %s\n", n, fmtF(p), fmtF(k))
+		fmt.Fprintf(w, "bin %d %s pmf %s\n", n, fmtF(p), fmtF(float64(n)-k))
+	}
 	nh := pick(tier, 300, 8000)
 	for i := 0; i < nh; i++ {
 		N := 15 + rng.Intn(986)
